@@ -69,6 +69,15 @@ def run(ctx):
             ev += 1
             if not dom.relclose(a + b, dq, 1e-7) or not (a >= 0 and b >= 0 and dq > 0):
                 bad("quadrature pseudopressure is not additive / increasing over adjacent intervals", dict(**inp, p=[float(P[i]), float(P[kmid]), float(P[j])]), dict(a=a, b=b, total=dq))
+        # other spellings of the documented fluid types: rejected, or the table (and so its pseudopressure, which must agree with the
+        # quadrature for the gas the caller named) is the one of the type they name
+        if k == 0:
+            def table_m(nm):
+                with warnings.catch_warnings():
+                    warnings.simplefilter("ignore")
+                    return [float(x) for x in np.asarray(build_pvt_gas(dict(vals), nm, 400.0)["pseudopressure"], float)[::6]]
+            ev += dom.check_dryness_spellings(table_m, lambda what, sp, obs: bad("build_pvt_gas pseudopressure column: " + what, dict(gas_values=vals, fluid=sp), obs),
+                                              lambda u, v: len(u) == len(v) and np.allclose(u, v, rtol=1e-12))
         # pressures at, just around and below the reference pressure, default and custom reference
         for pstd in (14.7, float(rng.uniform(200, 1500))):
             pts = np.array([0.6 * pstd, 0.9 * pstd, pstd, 1.1 * pstd, 2.0 * pstd])
